@@ -28,14 +28,28 @@ type EP struct {
 type Case struct {
 	EPs   []EP   `json:"kdcs"`
 	Limit string `json:"udp_preference_limit"` // "1" (TCP only) | "small" (below the request size: TCP first) | "large" (UDP first)
+	Code  int    `json:"code,omitempty"`       // error code of the endpoints answering a KRB-ERROR (0 = 12, KDC_ERR_POLICY)
+	Then  []EP   `json:"then,omitempty"`       // a second exchange of the same client after the endpoints changed to these behaviours
 }
 
 var udpBeh = []kdc.Behaviour{kdc.Answers, kdc.Refuses, kdc.ClosesEarly, kdc.Silent, kdc.AnswersErr, kdc.TooBig}
-var tcpBeh = []kdc.Behaviour{kdc.Answers, kdc.Refuses, kdc.ClosesEarly, kdc.Silent, kdc.AnswersErr}
+var tcpBeh = []kdc.Behaviour{kdc.Answers, kdc.Refuses, kdc.ClosesEarly, kdc.Silent, kdc.AnswersErr, kdc.CutsBody, kdc.CutsHeader}
 
 func faulty(b kdc.Behaviour) bool {
-	return b == kdc.Refuses || b == kdc.ClosesEarly || b == kdc.Silent
+	return b == kdc.Refuses || b == kdc.ClosesEarly || b == kdc.Silent || b == kdc.CutsBody || b == kdc.CutsHeader
 }
+
+// plainCodes are KRB-ERROR codes a client has no business reacting to other than by reporting them (not the
+// pre-authentication codes 24/25, RESPONSE_TOO_BIG 52 or WRONG_REALM 68).
+var plainCodes = func() []int {
+	var out []int
+	for c := 1; c <= 93; c++ {
+		if c != 24 && c != 25 && c != 52 && c != 68 {
+			out = append(out, c)
+		}
+	}
+	return out
+}()
 
 // outcome of the reference model: "ok", "fail", or "err:<tag>".
 func tryTransport(c Case, proto string, order []int) string {
@@ -144,23 +158,43 @@ func Eval(c Case) evid.Verdict {
 		ip := kdc.UniqueIP()
 		var servers []*kdc.Server
 		var addrs []string
-		for i, ep := range c.EPs {
-			s := kdc.NewServer(r, ip, 8800+i, ep.UDP, ep.TCP, fmt.Sprintf("k%d", i+1))
-			s.UDP.Code, s.TCP.Code = 12, 12 // KDC_ERR_POLICY: never retried by a client
-			if err := s.Start(); err != nil {
-				for _, x := range servers {
-					x.Stop()
-				}
-				return evid.Fail("harness", "cannot bind %s: %v", s.Addr, err)
-			}
-			servers = append(servers, s)
-			addrs = append(addrs, s.Addr)
+		code := c.Code
+		if code == 0 {
+			code = 12 // KDC_ERR_POLICY: never retried by a client
 		}
-		defer func() {
+		stopAll := func() {
 			for _, s := range servers {
 				s.Stop()
 			}
-		}()
+			servers = nil
+		}
+		startAll := func(eps []EP) error {
+			for i, ep := range eps {
+				s := kdc.NewServer(r, ip, 8800+i, ep.UDP, ep.TCP, fmt.Sprintf("k%d", i+1))
+				s.UDP.Code, s.TCP.Code = code, code
+				var err error
+				for try := 0; try < 20; try++ { // a port just closed may need a moment
+					if err = s.Start(); err == nil {
+						break
+					}
+					s.Stop()
+					time.Sleep(50 * time.Millisecond)
+				}
+				if err != nil {
+					stopAll()
+					return fmt.Errorf("cannot bind %s: %v", s.Addr, err)
+				}
+				servers = append(servers, s)
+			}
+			return nil
+		}
+		if err := startAll(c.EPs); err != nil {
+			return evid.Fail("harness", "%v", err)
+		}
+		for _, s := range servers {
+			addrs = append(addrs, s.Addr)
+		}
+		defer stopAll()
 		lim := map[string]int{"1": 1, "small": 10, "large": 32700}[c.Limit]
 		cfg, err := config.NewFromString(kdc.ConfText(kdc.ConfOpts{DefaultRealm: "EXAMPLE.COM", ETypes: "aes128-cts-hmac-sha1-96", NoAddresses: true, UDPPrefLimit: &lim},
 			map[string][]string{"EXAMPLE.COM": addrs}))
@@ -168,6 +202,29 @@ func Eval(c Case) evid.Verdict {
 			return evid.Fail("harness", "config: %v", err)
 		}
 		cl := client.NewWithPassword("alice", "EXAMPLE.COM", "password1", cfg, client.DisablePAFXFAST(true))
+		defer cl.Destroy()
+		if v := exchange(c, cl, &servers, ""); !v.OK || len(c.Then) == 0 {
+			return v
+		}
+		// the endpoints change their behaviour; the same client tries again
+		stopAll()
+		if err := startAll(c.Then); err != nil {
+			return evid.Fail("harness", "second phase: %v", err)
+		}
+		c2 := c
+		c2.EPs, c2.Then = c.Then, nil
+		v := exchange(c2, cl, &servers, fmt.Sprintf(" (second exchange of a client whose first one ran under %v)", c.EPs))
+		if !v.OK && v.Sig != "harness" {
+			v.Sig = "second-exchange:" + v.Sig
+		}
+		return v
+	})
+}
+
+// exchange runs one login of the client under the endpoints' current behaviour and judges it.
+func exchange(c Case, cl *client.Client, serversp *[]*kdc.Server, note string) evid.Verdict {
+	servers := *serversp
+	{
 		type res struct{ err error }
 		done := make(chan res, 1)
 		start := time.Now()
@@ -180,7 +237,6 @@ func Eval(c Case) evid.Verdict {
 			return evid.Fail("no-return", "Login did not return within 90 s under %v", c)
 		}
 		elapsed := time.Since(start)
-		cl.Destroy()
 		exp := Expected(c)
 		var got string
 		if lerr == nil {
@@ -206,7 +262,7 @@ func Eval(c Case) evid.Verdict {
 			keys = append(keys, k)
 		}
 		sort.Strings(keys)
-		desc := fmt.Sprintf("kdcs=%v udp_preference_limit=%s: outcome %q (error: %v); admissible outcomes %v; %d connection attempts seen; %.1fs", c.EPs, c.Limit, got, lerr, keys, attempts, elapsed.Seconds())
+		desc := fmt.Sprintf("kdcs=%v udp_preference_limit=%s error code %d%s: outcome %q (error: %v); admissible outcomes %v; %d connection attempts seen; %.1fs", c.EPs, c.Limit, c.Code, note, got, lerr, keys, attempts, elapsed.Seconds())
 		if !exp[got] {
 			switch {
 			case exp["ok"] && len(exp) == 1:
@@ -240,7 +296,7 @@ func Eval(c Case) evid.Verdict {
 			return evid.Fail("empty-error", "failure reported with an empty error")
 		}
 		return evid.Pass()
-	})
+	}
 }
 
 func silentCount(c Case) int {
@@ -344,7 +400,36 @@ func TestProp(t *testing.T) {
 			}
 		}
 	}
-	r.Rule(fmt.Sprintf("enum: every assignment of {answers, refuses, closes early, silent, KRB-ERROR, response-too-big (UDP)} to each (KDC, transport) endpoint x udp_preference_limit in {1, below the request size, above it}: n=1 all %d; n=2 %d (thorough: all 2700; quick: a seeded 1/9 slice with <= 1 silent endpoint); n=3 (thorough) all assignments with <= 2 non-refusing endpoints; non-trivial = >= 1 faulty endpoint", n1, n2))
+	r.Rule(fmt.Sprintf("enum: every assignment of {answers, refuses, closes early, silent, KRB-ERROR, response-too-big (UDP), reply cut in its body / in its header (TCP)} to each (KDC, transport) endpoint x udp_preference_limit in {1, below the request size, above it}: n=1 all %d; n=2 %d (thorough: all 2700; quick: a seeded 1/9 slice with <= 1 silent endpoint); n=3 (thorough) all assignments with <= 2 non-refusing endpoints; non-trivial = >= 1 faulty endpoint", n1, n2))
+	// every KRB-ERROR code in turn on the endpoints that answer an error
+	for i := range jobs {
+		for _, e := range jobs[i].EPs {
+			if e.UDP == kdc.AnswersErr || e.TCP == kdc.AnswersErr {
+				jobs[i].Code = plainCodes[(i+int(r.Seed()))%len(plainCodes)]
+			}
+		}
+	}
+	for ci, code := range plainCodes { // and every code at least once on the simplest assignment, per transport order
+		jobs = append(jobs, Case{EPs: []EP{{kdc.AnswersErr, kdc.AnswersErr}}, Limit: limits[ci%3], Code: code})
+	}
+	// two exchanges of one client with the endpoints changing in between: what the first exchange went through must not
+	// decide what the second one may use
+	phase := []EP{{kdc.Answers, kdc.Answers}, {kdc.TooBig, kdc.Answers}, {kdc.Refuses, kdc.Answers}, {kdc.Answers, kdc.Refuses}, {kdc.ClosesEarly, kdc.Answers}, {kdc.AnswersErr, kdc.Answers}, {kdc.Answers, kdc.CutsBody}}
+	for _, p1 := range phase {
+		for _, p2 := range phase {
+			for _, l := range limits {
+				add(Case{EPs: []EP{p1}, Then: []EP{p2}, Limit: l})
+			}
+		}
+	}
+	for pi, p1 := range phase {
+		for pj, p2 := range phase {
+			if r.Thorough() || (pi+pj+int(r.Seed()))%3 == 0 {
+				add(Case{EPs: []EP{p1, {kdc.Refuses, kdc.Refuses}}, Then: []EP{{kdc.Refuses, kdc.Refuses}, p2}, Limit: limits[(pi+pj)%3]})
+			}
+		}
+	}
+	r.Rule("enum (continued): TCP endpoints also cut the reply inside its body or inside its length header; the KRB-ERROR code runs through every code 1..93 except 24, 25, 52 and 68; two-exchange cases: one client logs in twice while the endpoints change behaviour in between (7 x 7 single-KDC phases x 3 limits, and a slice with the working KDC moving from the first to the second host)")
 	var mu sync.Mutex
 	var retry []Case
 	seenKey := map[string]bool{}
